@@ -39,7 +39,7 @@ def cut(src, kind, name, within=None, nth=0):
     """
     if kind == "filehead":
         # the whole file up to its test module (`#[cfg(test)]` / `#[cfg(all(test, ...))]`), or all of it
-        m = re.search(r"^#\[cfg\((?:all\()?test\b", src, flags=re.M)
+        m = re.search(r"^#\[cfg\((?:all\()?test\b[^\n]*\n(?:\s*#\[[^\n]*\n)*\s*(?:pub(?:\([a-z]+\))?\s+)?mod\s+tests?\b", src, flags=re.M)
         text = src[:m.start()] if m else src
         return text, 1, text.count("\n") + 1
     toks, _ = lex(src)
